@@ -7,7 +7,11 @@ use std::{
     num::NonZero,
 };
 
+#[cfg(not(kani))]
 use memchr::memchr;
+
+#[cfg(kani)]
+use crate::verif_kani::memchr_model as memchr;
 
 use super::reader::{DEFINITION_PREFIX, read_line};
 use crate::{fai::Record, record::definition::Definition};
